@@ -954,3 +954,193 @@ Proof.
     assert (Hin : In (minN (x :: db') x) (x :: db')) by (apply minN_In; discriminate).
     apply Hdb in Hin. destruct Hin as [[]|Hin]. exact Hin.
 Qed.
+
+(* ---- least_number_of_transformations is a SMALLEST sufficient set (categories of tool='modelsearch') ---- *)
+(* a transformation changes the feature of exactly one category; a category needs one iff the model's feature is
+   not offered by the space while the space offers something there *)
+Definition commonN (a b : list N) : bool := existsb (fun x => memN x b) a.
+Definition commonP (a b : list (N * N)) : bool := existsb (fun x => memb pair_eqb x b) a.
+Definition need_absorption (a b : mf) : bool := negb (commonN (E_modes w_absorption (absorption a)) (E_modes w_absorption (absorption b))).
+Definition need_elimination (a b : mf) : bool := negb (commonN (E_modes w_elimination (elimination a)) (E_modes w_elimination (elimination b))).
+Definition need_lagtime (a b : mf) : bool := negb (commonN (E_modes w_lagtime (lagtime a)) (E_modes w_lagtime (lagtime b))).
+Definition need_transits (a b : mf) : bool := negb (commonP (Epk_transits a) (Epk_transits b)) && negb (is_nil (Epk_transits b)).
+Definition need_peripherals (a b : mf) : bool :=
+  negb (commonP (drug_only (Epk_periph a)) (drug_only (Epk_periph b))) && negb (is_nil (drug_only (Epk_periph b))).
+Definition needed_categories (a b : mf) : list N :=
+  (if need_absorption a b then [s_ABSORPTION] else []) ++ (if need_elimination a b then [s_ELIMINATION] else []) ++
+  (if need_transits a b then [s_TRANSITS] else []) ++ (if need_peripherals a b then [s_PERIPHERALS] else []) ++
+  (if need_lagtime a b then [s_LAGTIME] else []).
+(* a set of feature keys can only bring the model into the space if it has a transformation for every such category *)
+Definition covers (ks : list key) (cats : list N) : Prop := forall c, In c cats -> exists k, In k ks /\ kcat k = AS c.
+Definition item_cat (i : lnt_item) : N :=
+  match i with LKey (AS c :: _) => c | LKey _ => 0 | LTransits _ _ => s_TRANSITS end.
+(* PK spaces as the parser builds them, no `*` in PERIPHERALS modes *)
+Definition wf_lnt_space (m : mf) : bool :=
+  match absorption m, elimination m, lagtime m with
+  | Some x, Some y, Some z => modes_ok w_absorption (Some x) && modes_ok w_elimination (Some y) && modes_ok w_lagtime (Some z)
+  | _, _, _ => false
+  end && forallb pstmt_ok (transits m) && forallb periph_plain (peripherals m).
+
+Lemma commonN_spec a b : commonN a b = true <-> exists x, In x a /\ In x b.
+Proof.
+  unfold commonN. rewrite existsb_exists. split; intros [x [H1 H2]]; exists x; split; auto; apply memN_In; exact H2.
+Qed.
+Lemma commonP_spec a b : commonP a b = true <-> exists x, In x a /\ In x b.
+Proof.
+  unfold commonP. rewrite existsb_exists. split; intros [x [H1 H2]]; exists x; split; auto; apply (memb_In pair_eqb pair_eqb_spec); exact H2.
+Qed.
+
+(* one mode category: as many items as needed (0 or 1), of that category *)
+Lemma lnt_modes_count catname w lhs rhs :
+  w <> [] -> modes_ok w (Some lhs) = true -> modes_ok w (Some rhs) = true ->
+  exists items, lnt_modes catname w (Some lhs) (Some rhs) = Ok items /\
+    items = (if negb (commonN (E_modes w (Some lhs)) (E_modes w (Some rhs))) then items else []) /\
+    length items = (if negb (commonN (E_modes w (Some lhs)) (E_modes w (Some rhs))) then 1 else 0)%nat /\
+    forall i, In i items -> item_cat i = catname.
+Proof.
+  intros Hw Hl Hr. destruct (lnt_modes_spec catname w lhs rhs Hw Hl Hr) as [items [E [H1 H2]]].
+  exists items. split; [exact E|]. destruct (commonN (E_modes w (Some lhs)) (E_modes w (Some rhs))) eqn:Ec; cbn [negb].
+  - apply commonN_spec in Ec. rewrite (H1 Ec). repeat split; auto. intros i [].
+  - destruct H2 as [m [-> _]].
+    + intros x Hx Hx'. assert (commonN (E_modes w (Some lhs)) (E_modes w (Some rhs)) = true) by (apply commonN_spec; exists x; auto). congruence.
+    + repeat split; auto. intros i [<-|[]]. reflexivity.
+Qed.
+
+Lemma lnt_peripherals_count a b :
+  forallb periph_plain a = true -> forallb periph_plain b = true ->
+  exists items, lnt_peripherals a b = Ok items /\
+    length items = (if negb (commonP (drug_only (E_pairs [] w_periph_modes a)) (drug_only (E_pairs [] w_periph_modes b)))
+                       && negb (is_nil (drug_only (E_pairs [] w_periph_modes b))) then 1 else 0)%nat /\
+    forall i, In i items -> item_cat i = s_PERIPHERALS.
+Proof.
+  intros Ha Hb. unfold lnt_peripherals.
+  destruct (extract_peripherals_spec a [] [] Ha) as [ma [da [Ea [Hma Hda]]]].
+  destruct (extract_peripherals_spec b [] [] Hb) as [mb [db [Eb [Hmb Hdb]]]].
+  rewrite Ea, Eb. cbn [bind fst snd]. eexists. split; [reflexivity|].
+  assert (Hdrug : forall (ps : list pstmt) c, In (c, s_DRUG) (drug_only (E_pairs [] w_periph_modes ps)) <-> In (c, s_DRUG) (E_pairs [] w_periph_modes ps)).
+  { intros ps c. unfold drug_only. rewrite filter_In. cbn [snd]. rewrite N.eqb_refl. tauto. }
+  assert (Hkey : forall (ps : list pstmt) x, In x (drug_only (E_pairs [] w_periph_modes ps)) -> snd x = s_DRUG).
+  { intros ps x Hx. unfold drug_only in Hx. apply filter_In in Hx. destruct Hx as [_ Hx]. apply N.eqb_eq in Hx. exact Hx. }
+  assert (Hc : existsb (fun c => memN c db) da = commonP (drug_only (E_pairs [] w_periph_modes a)) (drug_only (E_pairs [] w_periph_modes b))).
+  { apply eq_true_iff_eq. rewrite existsb_exists, commonP_spec. split.
+    - intros [c [H1 H2]]. apply memN_In in H2. exists (c, s_DRUG). split; apply Hdrug; [apply Hda in H1; destruct H1 as [[]|H1]; exact H1|apply Hdb in H2; destruct H2 as [[]|H2]; exact H2].
+    - intros [[c k] [H1 H2]]. pose proof (Hkey _ _ H1) as Ek. cbn in Ek. subst k. exists c.
+      split; [apply Hda; right; apply Hdrug; exact H1|apply memN_In, Hdb; right; apply Hdrug; exact H2]. }
+  assert (Hn : is_nil db = is_nil (drug_only (E_pairs [] w_periph_modes b))).
+  { destruct db as [|x db'].
+    - destruct (drug_only (E_pairs [] w_periph_modes b)) as [|[c k] l] eqn:E; [reflexivity|]. exfalso.
+      assert (H : In (c, k) (drug_only (E_pairs [] w_periph_modes b))) by (rewrite E; left; reflexivity).
+      pose proof (Hkey _ _ H) as Ek. cbn in Ek. subst k. apply Hdrug in H. assert (In c []) by (apply Hdb; right; exact H). contradiction.
+    - assert (H : In (x, s_DRUG) (E_pairs [] w_periph_modes b)) by (assert (H0 : In x (x :: db')) by (left; reflexivity); apply Hdb in H0; destruct H0 as [[]|H0]; exact H0).
+      apply Hdrug in H. destruct (drug_only (E_pairs [] w_periph_modes b)); [contradiction|reflexivity]. }
+  rewrite Hc, <- Hn. destruct (commonP _ _); cbn [negb andb].
+  - split; [reflexivity|intros i []].
+  - destruct db as [|x db']; cbn [is_nil negb]; (split; [reflexivity|]); [intros i []|intros i [<-|[]]; reflexivity].
+Qed.
+
+Lemma remove_empty_values d : Forall (fun kv : N * list N => snd kv <> []) (remove_empty d).
+Proof.
+  unfold remove_empty. apply Forall_forall. intros kv H. apply filter_In in H. destruct H as [_ H].
+  apply negb_true_iff, is_nil_false in H. exact H.
+Qed.
+
+Lemma add_helper_shape wv wk s1 s2 u1 u2 j :
+  add_helper wv wk s1 s2 = Ok (u1, u2, j) ->
+  Forall (fun kv => snd kv <> []) u2 /\ Forall (fun kv => snd kv <> []) j.
+Proof.
+  unfold add_helper. destruct (join_dict wv wk s1 []) as [d1| |]; cbn [bind]; try discriminate.
+  destruct (join_dict wv wk s2 []) as [d2| |]; cbn [bind]; try discriminate.
+  intro H. injection H as _ <- <-. split; apply remove_empty_values.
+Qed.
+
+Lemma dict_nil_iff wv wk d :
+  Forall (fun kv : N * list N => snd kv <> []) d -> (d = [] <-> forall p, ~ In p (E_pairs wv wk (dict_stmts d))).
+Proof.
+  intro Hd. split.
+  - intros -> p H. exact H.
+  - intro H. destruct d as [|[k vs] d']; [reflexivity|]. exfalso. inversion Hd as [|? ? Hv _]; subst. cbn in Hv.
+    destruct vs as [|v vs']; [congruence|]. apply (H (v, k)). apply In_E_dict_stmts. exists (v :: vs'). cbn. auto.
+Qed.
+
+Lemma lnt_transits_count (a b : mf) :
+  forallb pstmt_ok (transits a) = true -> forallb pstmt_ok (transits b) = true ->
+  exists items, lnt_transits (transits a) (transits b) = Ok items /\
+    length items = (if need_transits a b then 1 else 0)%nat /\ forall i, In i items -> item_cat i = s_TRANSITS.
+Proof.
+  intros Ha Hb. unfold lnt_transits.
+  destruct (add_helper_spec [] w_depot (transits a) (transits b) Ha Hb) as [u1 [u2 [j [E [A [B C]]]]]].
+  destruct (add_helper_shape _ _ _ _ _ _ _ E) as [S2 Sj]. rewrite E. cbn [bind].
+  assert (Hj : is_nil j = negb (commonP (Epk_transits a) (Epk_transits b))).
+  { apply eq_true_iff_eq. rewrite is_nil_true, negb_true_iff, (dict_nil_iff [] w_depot j Sj). split.
+    - intro H. destruct (commonP (Epk_transits a) (Epk_transits b)) eqn:Ec; [|reflexivity]. exfalso.
+      apply commonP_spec in Ec. destruct Ec as [[v k] [H1 H2]]. apply (H (v, k)). apply C. auto.
+    - intros Hn [v k] Hin. apply C in Hin. assert (commonP (Epk_transits a) (Epk_transits b) = true) by (apply commonP_spec; exists (v, k); exact Hin).
+      congruence. }
+  assert (Hu : commonP (Epk_transits a) (Epk_transits b) = false -> is_nil u2 = is_nil (Epk_transits b)).
+  { intro Hn. apply eq_true_iff_eq. rewrite !is_nil_true, (dict_nil_iff [] w_depot u2 S2). split.
+    - intro H. destruct (Epk_transits b) as [|[v k] l] eqn:Eb; [reflexivity|]. exfalso. apply (H (v, k)). apply B.
+      fold (Epk_transits b). rewrite Eb. split; [left; reflexivity|]. intro H1.
+      assert (commonP (Epk_transits a) ((v, k) :: l) = true) by (apply commonP_spec; exists (v, k); split; [exact H1|left; reflexivity]).
+      congruence.
+    - intros Eb [v k] Hin. apply B in Hin. fold (Epk_transits b) in Hin. rewrite Eb in Hin. destruct Hin as [[] _]. }
+  unfold need_transits. rewrite Hj. destruct (commonP (Epk_transits a) (Epk_transits b)) eqn:Ec; cbn [negb andb].
+  - eexists. split; [reflexivity|]. split; [reflexivity|intros i []].
+  - rewrite (Hu eq_refl). destruct (is_nil (Epk_transits b)) eqn:En; cbn [negb].
+    + eexists. split; [reflexivity|]. split; [reflexivity|intros i []].
+    + destruct (find _ u1) as [kv|].
+      * eexists. split; [reflexivity|]. split; [reflexivity|intros i [<-|[]]; reflexivity].
+      * destruct u2 as [|kv u2'].
+        -- exfalso. specialize (Hu eq_refl). cbn in Hu. congruence.
+        -- eexists. split; [reflexivity|]. split; [reflexivity|intros i [<-|[]]; reflexivity].
+Qed.
+
+(* the returned transformations: exactly one per category that needs one, none else -- hence no sufficient set is smaller *)
+Theorem lnt_smallest_lemma (a b : mf) :
+  wf_lnt_space a = true -> wf_lnt_space b = true ->
+  exists items, lnt_modelsearch a b = Ok items /\
+    length items = length (needed_categories a b) /\
+    (forall i, In i items -> In (item_cat i) (needed_categories a b)) /\
+    (forall ks : list key, covers ks (needed_categories a b) -> (length items <= length ks)%nat).
+Proof.
+  unfold wf_lnt_space. intros Ha Hb.
+  apply andb_true_iff in Ha. destruct Ha as [Ha Hpa]. apply andb_true_iff in Ha. destruct Ha as [Hma Hta].
+  apply andb_true_iff in Hb. destruct Hb as [Hb Hpb]. apply andb_true_iff in Hb. destruct Hb as [Hmb Htb].
+  destruct (absorption a) as [aa|] eqn:Eaa; [|discriminate]. destruct (elimination a) as [ea|] eqn:Eea; [|discriminate].
+  destruct (lagtime a) as [la|] eqn:Ela; [|discriminate].
+  destruct (absorption b) as [ab|] eqn:Eab; [|discriminate]. destruct (elimination b) as [eb|] eqn:Eeb; [|discriminate].
+  destruct (lagtime b) as [lb|] eqn:Elb; [|discriminate].
+  apply andb_true_iff in Hma. destruct Hma as [Hma H3a]. apply andb_true_iff in Hma. destruct Hma as [H1a H2a].
+  apply andb_true_iff in Hmb. destruct Hmb as [Hmb H3b]. apply andb_true_iff in Hmb. destruct Hmb as [H1b H2b].
+  destruct (lnt_modes_count s_ABSORPTION w_absorption aa ab ltac:(discriminate) H1a H1b) as [k1 [E1 [_ [L1 C1]]]].
+  destruct (lnt_modes_count s_ELIMINATION w_elimination ea eb ltac:(discriminate) H2a H2b) as [k2 [E2 [_ [L2 C2]]]].
+  destruct (lnt_transits_count a b Hta Htb) as [k3 [E3 [L3 C3]]].
+  destruct (lnt_peripherals_count (peripherals a) (peripherals b) Hpa Hpb) as [k4 [E4 [L4 C4]]].
+  destruct (lnt_modes_count s_LAGTIME w_lagtime la lb ltac:(discriminate) H3a H3b) as [k5 [E5 [_ [L5 C5]]]].
+  exists (k1 ++ k2 ++ k3 ++ k4 ++ k5). unfold lnt_modelsearch. rewrite Eaa, Eab, Eea, Eeb, Ela, Elb, E1, E2, E3, E4, E5. cbn [bind].
+  split; [reflexivity|].
+  assert (Hlen : length (k1 ++ k2 ++ k3 ++ k4 ++ k5) = length (needed_categories a b)).
+  { unfold needed_categories, need_absorption, need_elimination, need_lagtime, need_peripherals, Epk_periph.
+    rewrite Eaa, Eab, Eea, Eeb, Ela, Elb, !app_length, L1, L2, L3, L4, L5.
+    repeat match goal with |- context [if ?c then _ else _] => destruct c end; reflexivity. }
+  assert (Hcat : forall i, In i (k1 ++ k2 ++ k3 ++ k4 ++ k5) -> In (item_cat i) (needed_categories a b)).
+  { intros i Hi. unfold needed_categories, need_absorption, need_elimination, need_lagtime, need_peripherals, Epk_periph.
+    rewrite Eaa, Eab, Eea, Eeb, Ela, Elb. rewrite !in_app_iff in Hi. rewrite !in_app_iff.
+    assert (Hone : forall (k : list lnt_item) (c : bool) x, length k = (if c then 1 else 0)%nat -> In x k -> c = true).
+    { intros k c x Hl Hx. destruct c; [reflexivity|]. destruct k; [contradiction|discriminate]. }
+    destruct Hi as [Hi|[Hi|[Hi|[Hi|Hi]]]].
+    - rewrite (C1 i Hi), (Hone _ _ _ L1 Hi). left. left. reflexivity.
+    - rewrite (C2 i Hi), (Hone _ _ _ L2 Hi). right. left. left. reflexivity.
+    - rewrite (C3 i Hi), (Hone _ _ _ L3 Hi). right. right. left. left. reflexivity.
+    - rewrite (C4 i Hi), (Hone _ _ _ L4 Hi). right. right. right. left. left. reflexivity.
+    - rewrite (C5 i Hi), (Hone _ _ _ L5 Hi). right. right. right. right. left. reflexivity. }
+  split; [exact Hlen|]. split; [exact Hcat|].
+  intros ks Hcov. rewrite Hlen.
+  assert (Hnd : NoDup (needed_categories a b)).
+  { unfold needed_categories. repeat match goal with |- context [if ?c then _ else _] => destruct c end;
+      cbn; repeat constructor; cbn; intuition discriminate. }
+  assert (Hincl : incl (map AS (needed_categories a b)) (map kcat ks)).
+  { intros x Hx. apply in_map_iff in Hx. destruct Hx as [c [<- Hc]]. destruct (Hcov c Hc) as [k [Hk E]]. rewrite <- E. apply in_map. exact Hk. }
+  assert (Hnd' : NoDup (map AS (needed_categories a b))).
+  { apply FinFun.Injective_map_NoDup; [|exact Hnd]. intros x y E. injection E. auto. }
+  pose proof (NoDup_incl_length Hnd' Hincl) as H. rewrite !map_length in H. exact H.
+Qed.
